@@ -52,12 +52,12 @@ func sleepCtx(d time.Duration, ctxKind string, dl time.Duration, mode int) Scena
 		if ctxKind == "farDeadlineCancelAt" {
 			dlAbs = hx.Now() + 100*d + dl
 		}
-		var r res
+		var shared res
 		go func() {
 			start := hx.Now()
 			err := xtime.SleepContext(ctx, d)
 			el := hx.Now() - start
-			hx.Atomically(func() { r = res{true, err, el, start} })
+			hx.Atomically(func() { shared = res{true, err, el, start} })
 		}()
 		if ctxKind == "cancelAt" || ctxKind == "farDeadlineCancelAt" {
 			hx.Sleep(dl)
@@ -65,11 +65,15 @@ func sleepCtx(d time.Duration, ctxKind string, dl time.Duration, mode int) Scena
 			// The context has ended and the clock is stopped: a SleepContext that is still parked now
 			// is not returning the context's error although the context ended first.
 			hx.QuiesceNow()
-			if !r.done {
-				hx.Fail("sleep/blocked-with-cancelled-context", "SleepContext(%v) is still blocked although its context was cancelled at %v and no thread is running", d, dl)
-			}
+			hx.Atomically(func() {
+				if !shared.done {
+					hx.Fail("sleep/blocked-with-cancelled-context", "SleepContext(%v) is still blocked although its context was cancelled at %v and no thread is running", d, dl)
+				}
+			})
 		}
 		hx.Quiesce()
+		var r res
+		hx.Atomically(func() { r = shared })
 		if !r.done {
 			hx.Fail("sleep/never-returned", "SleepContext(%v) did not return", d)
 		}
